@@ -647,8 +647,11 @@ def run(ctx) -> None:
                         "a refused conditional pointer write (412 Precondition Failed) was NOT applied: the object store answers each request once "
                         "and the HTTP client does not re-send an If-Match PUT whose first copy landed (botocore's default retry policy can, after a "
                         "connection error / 5xx on the response); with such a re-send the commit is classified a clean conflict and its metadata file "
-                        "discarded while the pointer names it -- Model/CommitLate.v, C01_conflict_not_reflected_partial / _refuted; the harness's "
-                        "object store does not produce it",
+                        "discarded while the pointer names it -- Model/CommitLate.v, C01_conflict_not_reflected_partial / _refuted; the runs of this check do "
+                        "not produce it (checked by hand with the fake store answering 412 after applying the PUT: Transaction.commit's retry re-reads, "
+                        "recovers the previous version by the pointer-recovery scan of C10 and commits again -- acknowledged once, reflected once; a "
+                        "budget-1 delete_snapshot raises and leaves the pointer naming the discarded file, which readers recover from by the same scan: "
+                        "not reflected, but only through C10's recovery)",
                         "workers are forked while the parent's table handle is idle (between commits), not from inside a commit "
                         "(forks_quiescent in the lock-layer theorems; C01_fork_while_holding_not_exclusive is the refutation without it)",
                         "C01_snapshot_chain: distinct committers draw distinct positive snapshot ids and metadata-file names (uuid4)"]
